@@ -182,3 +182,26 @@ def runner_order_once(ctx, rule, flows, category):
                   "rail call `%s` indexes the list at the iteration's entry value of $%s (offset %s): rails run in configured order, none skipped or repeated" % (
                       c.text, info["var"], off), line=c.line)
     return f
+
+
+def cleanup_candidates(fn):
+    """How _clean_up_state collects the flow states it will delete: [(collecting node, [conjunct expr nodes], collection variable)] for both forms -
+    `if <cond>: X.append(uid)` inside a loop over the flow states, and `X = [fs.uid for fs in ... if <cond>]`."""
+    import ast as _ast
+    from ..source import src as _src
+    out = []
+    for n in _ast.walk(fn):
+        if isinstance(n, _ast.If):
+            apps = [c for st in n.body for c in _ast.walk(st) if isinstance(c, _ast.Call) and isinstance(c.func, _ast.Attribute) and c.func.attr == "append" and "uid" in _src(c)]
+            if apps and "_is_done_flow" in _src(n.test):
+                te = n.test
+                conj = list(te.values) if isinstance(te, _ast.BoolOp) and isinstance(te.op, _ast.And) else [te]
+                out.append((n, conj, _src(apps[0].func.value)))
+        if isinstance(n, _ast.Assign) and isinstance(n.value, _ast.ListComp) and n.value.generators and "flow_states" in _src(n.value.generators[0].iter) \
+                and "uid" in _src(n.value.elt) and n.value.generators[0].ifs:
+            conj = []
+            for te in n.value.generators[0].ifs:
+                conj += list(te.values) if isinstance(te, _ast.BoolOp) and isinstance(te.op, _ast.And) else [te]
+            if any("_is_done_flow" in _src(c) for c in conj):
+                out.append((n, conj, _src(n.targets[0])))
+    return out
